@@ -35,11 +35,14 @@ RULE = ("Reference automaton (vp/ref/controllers.py: steps, patience_count, cont
         "tensors / batched tensors of 2..4 losses with per-element symbols, reset() at arbitrary points, reuse after "
         "reset, budgets 1..70, patience 1..6, thresholds 1e-6..1e-3, tol 1e-5..10).  drivers: "
         "StopOnPlateau.optimize on a scripted stub (exact stop step) and on real GN/LM optimizers (tiny least-squares "
-        "model), MPC and ICP called twice on the same object with a counting wrapper around stepper.step: #controller "
-        "steps <= steps per call, and the stop step must be the automaton's under at least one of the three readings. "
+        "model), MPC and ICP called three times on the same object (stepper reused) with a counting wrapper around "
+        "stepper.step: #controller steps <= steps in every call, and the stop step must be a fresh automaton's under at "
+        "least one of the three readings (batched costs/errors: all-elements rule).  "
         "Non-trivial: the history contains a step after the stop (this includes >= 2 causes becoming true at different "
-        "steps) or a reset / a second driver call; distinct = (controller, steps, patience, abstract history).  The "
-        "labels 'histories_checked(x100)' etc. count enumerated histories in units of 100 (floor per case).")
+        "steps) or a reset / a repeated driver call; distinct = (controller, steps, patience, abstract history).  In "
+        "enum one case covers many histories: the labels 'histories_checked(x100)', 'nontrivial_histories(x100)' count "
+        "them in units of 100 (floor per case; every history is counted by exactly one case) and only every 4th "
+        "(quick) / 2048th (thorough) non-trivial history contributes a descriptor to distinct_nontrivial.")
 ASSUMPTIONS = ["losses are positive and finite; steps >= 1, patience >= 1, decreasing > 0 (drivers: >= 0), tol > 0",
                "first step after construction / reset() has no previous loss and cannot count as a failed step",
                "batched losses: a step counts as failed when all elements failed (ReduceToBason.step docstring)",
@@ -428,6 +431,8 @@ class Sequences(Sub):
         shape = SHAPES[form]
         numel = int(np.prod(shape)) if shape else 1
         tol = case.get("tol")
+        if not (steps >= 1 and patience >= 1 and thr > 0 and (tol is None or tol > 0)):
+            rec.discard_case("configuration outside the stated domain")
         aut = Automaton(steps, patience)
         if ctrl == "R":
             kw = dict(steps=steps, patience=patience, decreasing=thr, tol=tol)
@@ -752,9 +757,20 @@ class Drivers(Sub):
                   % (where, n, detail))
         rec.label("opt_real:" + case["opt"], "opt_real:decided" if ok else "opt_real:undecided",
                   "opt_real:rejections" if any(r for _, _, r in trace) else "opt_real:no_rejection")
+        try:                                # a stopped scheduler stays stopped: optimize() again must not step the optimizer
+            sched.optimize(input=inp)
+            cont = sched.continual()
+        except _Overrun:
+            pass
+        except Exception as e:
+            _driver_exc(rec, "second StopOnPlateau.optimize(real %s)" % case["opt"], e)
+        rec.check(len(trace) == n and not cont, "optimize_real:rearmed", "%s: a second optimize() made %d more optimizer steps"
+                  % (where, len(trace) - n))
+        rec.nt("opt_real|%d|%d|%s|%s|%d|%d" % (steps, patience, case["opt"], case["strat"] if case["opt"] == "LM" else "-", n,
+                                               sum(1 for _, _, r in trace if r)))
 
     def _loop(self, case, rec, build):
-        """MPC / ICP: same object called twice, counting wrapper around stepper.step"""
+        """MPC / ICP: the same object is called three times (stepper reused), counting wrapper around stepper.step"""
         k, patience, thr, tol = case["steps"], case["patience"], case["thr"], case["tol"]
         with rec.sut("ReduceToBason()"):
             stepper = ReduceToBason(steps=k, patience=patience, decreasing=thr, tol=tol)
